@@ -102,6 +102,11 @@ extern "C" int LLVMFuzzerTestOneInput(const uint8_t* data, size_t size) {
     check(dist(mat_from_monomials(comm, M), lin(AB, 1, BA, -1)) < tol, "[A,B]");
     check(dist(mat_from_monomials(acomm, M), lin(AB, 1, BA, 1)) < tol, "{A,B}");
     check(dist(mat_from_monomials(-oa, M), lin(A, -1, A, 0)) < tol, "-A");
+    // compound assignments, also with the same object on both sides
+    { Operator p = oa; p *= p; check(dist(mat_from_monomials(p, M), mul(A, A)) < tol, "P *= P"); }
+    { Operator q = oa; q += q; check(dist(mat_from_monomials(q, M), lin(A, 2, A, 0)) < tol, "Q += Q"); }
+    { Operator r = oa; r *= ob; check(dist(mat_from_monomials(r, M), AB) < tol, "R *= B"); }
+    { Operator s = oa; s -= ob; check(dist(mat_from_monomials(s, M), lin(A, 1, B, -1)) < tol, "S -= B"); }
     bool meq = dist(A, B) < tol;
     check((oa == ob) == meq, "A==B vs matrix equality");
     check((ob == oa) == meq, "B==A vs matrix equality");
